@@ -98,3 +98,21 @@ Inductive wf_format : str -> Prop :=
 | wf_nil : wf_format []
 | wf_char c s : lbrace c = false -> rbrace c = false -> wf_format s -> wf_format (c :: s)
 | wf_grp body s : wf_group body -> wf_format s -> wf_format (123%N :: body ++ 125%N :: s).
+
+(* ---- hyphen-aware abbreviation of a word without braces ---- *)
+Definition no_lbrace (s : str) : bool := forallb (fun c => negb (lbrace c)) s.
+Definition nonempty (s : str) : bool := negb (match s with [] => true | _ => false end).
+
+(* the first ASCII letter of a string, as a one-character string; "" if there is none *)
+Fixpoint first_alpha (s : str) : str :=
+  match s with [] => [] | c :: t => if is_alpha c then [c] else first_alpha t end.
+
+(* str.split(c) for a single character *)
+Fixpoint split_char (c : char) (s acc : str) : list str :=
+  match s with
+  | [] => [rev acc]
+  | x :: t => if N.eqb x c then rev acc :: split_char c t [] else split_char c t (x :: acc)
+  end.
+
+Definition delim_or_default (d : option str) : str := match d with None => [46%N; 45%N] | Some d => d end.
+
